@@ -6,21 +6,24 @@ from .c01 import fix_disagreements
 
 MODULES = ['DsdVerif.Props.C03']
 GEN_FILES = []
-THEOREM_NAMES = ['query_coherent', 'setTurns_coherent', 'setTurns_rotation', 'views_refine_spec', 'stale_setter_counterexample']
-THEOREMS = []
+THEOREM_NAMES = ['coherent_fresh', 'query_coherent', 'setTurns_coherent', 'setTurns_rotation', 'views_refine_spec', 'stale_setter_counterexample']
+THEOREMS = ['Dsd.C03.' + t for t in THEOREM_NAMES]
 ASSUMPTIONS = [
     'the ComplexS object is hand-modelled with its lazily filled caches and the turns setter (Model/CplxObject.lean); the specification '
     'object has no caches and computes every view from the current rotation',
     'views that hand out generators / iterators are compared after list() conversion',
 ]
 MANIFEST = {
-    'text': 'Partial at this commit: the Lean model of the object (caches + turns setter + 18 views) is tied to ComplexS by correspondence '
-            'over complexes x all op sequences of bounded length (13 turn values incl. negative and beyond the size, all views, caches '
-            'populated before and between assignments) plus random long sequences; an independent oracle recomputes every view of the '
-            'real object from list(c.sequence), list(c.structure) with the reference algorithms after every step; the refinement '
-            'theorems present at this commit are listed in the evidence.',
-    'note': 'Trusted base as in DESIGN.md section 3.',
-    'technique': 'Lean 4 refinement (cached object vs cache-free spec) by induction over op sequences; correspondence check; reference oracle',
+    'text': 'Full for the model: views_refine_spec (after any sequence of turns assignments - any integer - interleaved with queries that '
+            'populate the lazily computed tables, every one of the 18 views answers exactly like the cache-free specification of the '
+            'current rotation), query_coherent / setTurns_coherent (identity, name and canonical form never change; caches stay '
+            'coherent), setTurns_rotation (turns = v moves the representation to the v-th rotation modulo the number of strands and '
+            'rotate^turns(canon) is the current sequence and structure), and stale_setter_counterexample (the setter that keeps the old '
+            'tables violates this on a 3-op history: the defect repaired in /repo). The model object is tied to ComplexS by '
+            'correspondence over complexes x op sequences; every view of the real object is also re-derived from its current sequence '
+            'and structure with reference algorithms after every step.',
+    'note': 'Trusted base as in DESIGN.md section 3; generators / iterators are compared after list() conversion.',
+    'technique': 'Lean 4 refinement proof (cached object vs cache-free spec) by induction over op sequences; correspondence check; reference oracle',
 }
 
 VIEWS = ['sequence', 'structure', 'kernel', 'size', 'strand_table', 'pair_table', 'exterior', 'enclosed', 'is_connected',
